@@ -204,6 +204,7 @@ def execute(args):
                  "single-row": [seed % len(rows)] if rows else [],
                  "random-half": [i for i in range(len(rows)) if random.Random(seed * 7 + i).random() < 0.5]}
         subs = {}
+        label_probs = []
         for nm, idx in picks.items():
             if idx and len(idx) < len(rows):  # noqa
                 # every other sub-table is cut out of the full frame (it then keeps the row labels of the full table: a
@@ -212,13 +213,23 @@ def execute(args):
                     dfs = pd.DataFrame(cols, dtype=str).iloc[idx]
                 else:
                     dfs = pd.DataFrame({k: [v[i] for i in idx] for k, v in cols.items()}, dtype=str)
-                subs[nm] = (idx, list(TabularInput(dfs, sidecar=Sidecar(io.StringIO(json.dumps(sidecar)))).series_a))
+                tsub = TabularInput(dfs, sidecar=Sidecar(io.StringIO(json.dumps(sidecar))))
+                sa = tsub.series_a
+                subs[nm] = (idx, list(sa))
+                # the annotation stays attached to ITS row: the Series (and the assembled frame) carry the table's row labels
+                if list(sa.index) != list(dfs.index) or list(tsub.dataframe_a.index) != list(dfs.index):
+                    label_probs.append(("row-labels-lost", "sub-table %s with row labels %s: series_a is labelled %s, dataframe_a %s"
+                                        % (nm, list(dfs.index), list(sa.index), list(tsub.dataframe_a.index))))
         rev = list(range(len(rows)))[::-1]
         if len(rev) > 1:           # the whole table with its rows (and row labels) in reverse order
-            subs["rows-reversed-keeping-labels"] = (rev, list(TabularInput(pd.DataFrame(cols, dtype=str).iloc[rev],
-                                                                        sidecar=Sidecar(io.StringIO(json.dumps(sidecar)))).series_a))
+            trev = TabularInput(pd.DataFrame(cols, dtype=str).iloc[rev], sidecar=Sidecar(io.StringIO(json.dumps(sidecar))))
+            sa = trev.series_a
+            subs["rows-reversed-keeping-labels"] = (rev, list(sa))
+            if list(sa.index) != rev:
+                label_probs.append(("row-labels-lost", "table with row labels %s: series_a is labelled %s" % (rev, list(sa.index))))
     except Exception as ex:  # noqa
         return ci, [("raises", "assembly raised %s: %s; sidecar=%s table=%s" % (type(ex).__name__, ex, sidecar, cols))], None
+    problems += label_probs
     if len(s1) != len(expected):
         problems.append(("row-count", "%d rows assembled for %d table rows" % (len(s1), len(expected))))
     if s1 != s2:
